@@ -193,8 +193,59 @@ func c10ConcCase(cc *run.Case, kind string, h int) {
 			}
 		}(i)
 	}
+	// The in-memory repository is shared between workers: several writers may
+	// append to the SAME asset at once. Nothing may be lost and each writer's
+	// snapshots must keep their order (conservation, checked after the run).
+	const sharedWriters, sharedEach = 3, 8
+	if kind == "memory" {
+		for w := 0; w < sharedWriters; w++ {
+			wg.Add(1)
+			go func(w int) {
+				defer wg.Done()
+				<-start
+				for d := 0; d < sharedEach; d += 2 {
+					c := make(chan *asset.Snapshot) // unbuffered: the Append stays open while the producer is slow
+					go func() {
+						c <- concSnap(salt, 100+w, d)
+						runtime.Gosched()
+						c <- concSnap(salt, 100+w, d+1)
+						close(c)
+					}()
+					if err := repo.Append("shared", c); err != nil {
+						appendErr.Store(fmt.Sprintf("Append(shared) returned an error: %v", err))
+						return
+					}
+				}
+			}(w)
+		}
+	}
 	close(start)
 	wg.Wait()
+
+	if kind == "memory" {
+		c, err := repo.Get("shared")
+		if err != nil {
+			cc.Viol("", "memory repository, concurrent writers of one asset: Get failed: "+err.Error(), desc)
+			return
+		}
+		next := make([]int, sharedWriters)
+		total := 0
+		for s := range c {
+			w := int(math.Round(s.Open-salt))/1000 - 100
+			d := int(math.Round(s.Date.Sub(day0).Hours() / 24))
+			if w < 0 || w >= sharedWriters || d != next[w] {
+				cc.Viol("", fmt.Sprintf("memory repository, %d concurrent writers of one asset: snapshot %d of the asset is writer %d's day %d, that writer's next one is day %d (a snapshot was lost, duplicated or reordered)", sharedWriters, total, w, d, next[max(0, min(w, sharedWriters-1))]), desc)
+				return
+			}
+			next[w]++
+			total++
+		}
+		if total != sharedWriters*sharedEach {
+			cc.Viol("", fmt.Sprintf("memory repository, %d concurrent writers of one asset: %d of the %d appended snapshots are stored (appends that had returned were lost)", sharedWriters, total, sharedWriters*sharedEach), desc)
+			return
+		}
+		cc.Count("conc_shared_asset_snapshots", int64(total))
+	}
 
 	if m := appendErr.Load(); m != nil {
 		cc.Viol("", fmt.Sprintf("%s repository, concurrent clients: %s", kind, m), desc)
@@ -260,6 +311,9 @@ func c10ConcCase(cc *run.Case, kind string, h int) {
 						return
 					}
 					delete(have, n)
+				}
+				if kind == "memory" {
+					delete(have, "shared") // the multi-writer asset below
 				}
 				for n := range have {
 					fail(rd, fmt.Sprintf("Assets() lists %q, which nobody appended", n))
